@@ -548,9 +548,11 @@ class C12(MsgProp):
                 op = r.choice(tg) + " ; " + gsteps + " ; " + r.choice(early_fail + late_fail + special) + " ; " + r.choice(tg)
             yield ("BUILDSEQG " + op, "sessions-with-generated-builds", True)
         # long sessions: one builder used hundreds / tens of thousands of times (counters, accumulating state)
-        for n_rep in (255, 256, 257, 1029, 65535, 65536, 65537):
+        for n_rep in (255, 256, 257, 1029):
             for m1 in (r.choice(shorts), r.choice(early_fail), "E"):
                 yield ("BUILDREP %d %s ; %s" % (n_rep, m1, r.choice(tg)), "long-session", True)
+        for n_rep, m1 in ((65535, r.choice(shorts)), (65536, r.choice(early_fail)), (65537, r.choice(shorts))):
+            yield ("BUILDREP %d %s ; %s" % (n_rep, m1, r.choice(tg)), "long-session", True)
         n_seq = 150 if ctx.tier == "quick" else 2500
         for _ in range(n_seq):
             k = r.randrange(1, 7 if ctx.tier == "quick" else 11)
